@@ -4,7 +4,7 @@ from __future__ import annotations
 
 import copy
 
-from .core import outcome, octs, after_pack, rxbuf, decoded, scramble, owned
+from .core import outcome, octs, after_pack, rxbuf, decoded, scramble, owned, enum_arg
 from .probe import decode_other, poison, twin
 
 KIND_ORDER = ["eof", "finished", "ack", "metadata", "nak", "prompt", "keepalive", "filedata"]
@@ -33,19 +33,6 @@ def bf_inplace(v):
     f.as_bytes, int(f), f.hex_str
     f.value = _i(v)
     return f
-
-
-def enum_arg(cls, v, *key):
-    """An enumerated argument as a caller may write it: the enum member, or its plain integer / boolean value (the enums are
-    IntEnums: `1 == CrcFlag.WITH_CRC`, and the library accepts either).  Which spelling is used is a deterministic function
-    of the surrounding arguments, so every grid and every random run exercises all of them."""
-    import zlib
-    k = zlib.crc32(repr((cls.__name__, v) + key).encode()) % 4
-    if k == 1:
-        return int(v)
-    if k == 2 and v in (0, 1):
-        return bool(v)
-    return cls(v)
 
 
 def mk_cfg(c, inplace=False):
